@@ -25,7 +25,7 @@ def gen(args):
     from sklearn.metrics.pairwise import euclidean_distances
     rng = np.random.default_rng([sd, wid, 1515])
     out = []
-    for t in range(n):
+    for t in core.timed(range(n)):
         dim = int(rng.integers(1, 7))
         nx, ny = int(rng.integers(1, 6)), int(rng.integers(1, 6))
         s = [1, 2, 4][int(rng.integers(3))]          # coordinates are lattice / s (dyadic, exact)
